@@ -78,7 +78,8 @@ let string_of_pset s =
 
 let check inp obs =
   match split_ws inp with
-  | "ps" :: maxin :: maxout :: ro :: _np :: optoks ->
+  | (("ps" | "hd") as kw) :: maxin :: maxout :: ro :: _np :: optoks ->
+    let handler_mode = (kw = "hd") in
     let maxin = n_of_hex maxin and maxout = n_of_hex maxout and ro = (ro = "1") in
     if obs = "hang-budget" then
       { prop_ok = true; model_eq = true; nontrivial = false; finding = "-"; tags = "skipped-after-hang-budget"; detail = "" }
@@ -86,6 +87,7 @@ let check inp obs =
     let obtoks = if obs = "-" then [] else split_ws obs in
     let tags = Hashtbl.create 16 in
     let tag t = Hashtbl.replace tags t () in
+    if handler_mode then tag "via-handler";
     let prop = ref true and eq = ref true and details = Buffer.create 64 in
     let failing_in_guard = ref 0 and failing_outside = ref 0 in
     let nontriv = ref 0 in
@@ -109,11 +111,11 @@ let check inp obs =
           Buffer.add_string details (Printf.sprintf "op %d (%s): implementation %s%s; " i optok ob (if pre then " [= pre-fix model]" else ""))
         end else begin
           (match String.split_on_char '|' ob with
-           | [e; ms; counters; plist'] ->
+           | e :: ms :: counters :: plist' :: rest when List.length rest <= 1 ->
              let sn = parse_snap counters plist' in
              let s1 = pset_of maxin maxout ro sn (parse_msgs ms) in
              if ms <> "-" then String.iteri (fun j c -> if j mod 2 = 0 then tag ("msg-" ^ String.make 1 c)) ms;
-             if e <> "ok" then tag ("err-" ^ e);
+             if e <> "ok" && e <> "?" then tag ("err-" ^ e);
              if List.length s1.nodes < List.length s0.nodes then tag "peer-forgotten";
              if ms <> "-" || e <> "ok" then incr nontriv;
              (* property predicates on the implementation's observables *)
@@ -130,7 +132,18 @@ let check inp obs =
              end;
              if not (limits_ok s1) then tag "over-limit-state";
              (* the model: is the observed result one of its possible results? *)
-             let matches r = (match r with Ret (e', s') -> string_of_err e' = e && same_state s' s1 | _ -> false) in
+             (* the handler harness cannot observe the error (the action loop only logs it): `?` *)
+             let matches r = (match r with Ret (e', s') -> (e = "?" || string_of_err e' = e) && same_state s' s1 | _ -> false) in
+             (* the answer of the sortedPeers action: the connected peers by non-increasing reputation *)
+             (match rest with
+              | [so] ->
+                tag (if so = "-" then "sorted-empty" else if String.length so > 1 then "sorted-many" else "sorted-one");
+                if not (sorted_ok s1 (peers_of so)) then begin
+                  eq := false;
+                  Buffer.add_string details (Printf.sprintf "op %d (%s): sortedPeers answered %s, not the connected peers by non-increasing reputation (reference answer: %s); " i optok so
+                    (String.concat "" (List.map (fun p -> String.make 1 (Char.chr (Char.code 'a' + int_of_n p))) (sorted_peers s1))))
+                end
+              | _ -> ());
              if not (List.exists matches outcomes) then begin
                eq := false;
                let pre = List.exists matches (step prefix s0 k o) in
@@ -151,6 +164,58 @@ let check inp obs =
     { prop_ok = !prop; model_eq = !eq; nontrivial = (!nontriv >= 3); finding;
       tags = String.concat "," (List.sort compare tl); detail = Buffer.contents details }
     end
+  | ["cst"] ->
+    let model = hex_of_z banned_threshold ^ " " ^ hex_of_z disconnect_change in
+    { prop_ok = true; model_eq = (model = obs); nontrivial = false; finding = "-"; tags = "constants";
+      detail = if model = obs then "" else "constants differ: Model.v has " ^ model ^ ", the Go package has " ^ obs }
   | _ -> fail "C30: bad input %s" inp
 
-let () = run_driver check
+(* vm_compute cross-check of the extraction: every observed step of a sampled case is re-evaluated
+   inside Coq (ModelSpec.vm_step: the observed error and state are among the results of
+   Model.step from the observed state before) *)
+let coq_z (x : z) = match x with
+  | Z0 -> "0%Z" | Zpos p -> "(Z.of_N " ^ coq_n (Npos p) ^ ")" | Zneg p -> "(Z.opp (Z.of_N " ^ coq_n (Npos p) ^ "))"
+let coq_list f l = "[" ^ String.concat "; " (List.map f l) ^ "]"
+let coq_bool b = if b then "true" else "false"
+let coq_pset s =
+  let st = function NotMember -> "NotMember" | Ingoing -> "Ingoing" | Outgoing -> "Outgoing" | NotConnected -> "NotConnected" in
+  let nd (p, n) = Printf.sprintf "(%s, mkNode %s %s %s)" (coq_n p) (st n.n_st) (coq_z n.n_rep) (coq_bool n.n_old) in
+  let ms (m, p) = Printf.sprintf "(%s, %s)" (match m with MConnect -> "MConnect" | MDrop -> "MDrop" | MAccept -> "MAccept" | MReject -> "MReject") (coq_n p) in
+  Printf.sprintf "(mkPS %s %s %s %s %s %s Unlocked %s %s 0%%N %s)" (coq_list nd s.nodes) (coq_n s.num_in) (coq_n s.num_out)
+    (coq_n s.max_in) (coq_n s.max_out) (coq_list coq_n s.noslot) (coq_list coq_n s.reserved) (coq_bool s.ronly) (coq_list ms s.msgs)
+let coq_op o =
+  let l = coq_list coq_n in
+  match o with
+  | OAddReserved ps -> "OAddReserved " ^ l ps | ORemoveReserved ps -> "ORemoveReserved " ^ l ps
+  | OSetReserved ps -> "OSetReserved " ^ l ps | OReport (d, ps) -> Printf.sprintf "OReport %s %s" (coq_z d) (l ps)
+  | OAddPeer ps -> "OAddPeer " ^ l ps | ORemovePeer ps -> "ORemovePeer " ^ l ps | OIncoming ps -> "OIncoming " ^ l ps
+  | ODisconnect (r, ps) -> Printf.sprintf "ODisconnect %s %s" (coq_bool r) (l ps) | OAllocSlots -> "OAllocSlots"
+  | OAge ps -> "OAge " ^ l ps
+let coq inp obs =
+  match split_ws inp with
+  | ("ps" | "hd") :: maxin :: maxout :: ro :: _np :: optoks when obs <> "hang-budget" ->
+    let maxin = n_of_hex maxin and maxout = n_of_hex maxout and ro = (ro = "1") in
+    let obtoks = if obs = "-" then [] else split_ws obs in
+    let cur = ref (init_pset maxin maxout ro) in
+    let terms = ref [] in
+    let rec go ops obsl = match ops, obsl with
+      | optok :: ops', ob :: obsl' when ob <> "hang" && ob <> "panic" ->
+        let (k, _, o, _) = parse_op optok in
+        (match String.split_on_char '|' ob with
+         | e :: ms :: counters :: plist' :: _ ->
+           let s1 = pset_of maxin maxout ro (parse_snap counters plist') (parse_msgs ms) in
+           let e' = (match e with
+             | "?" -> "None" | "ok" -> "(Some None)" | "e:noexist" -> "(Some (Some ErrPeerDoesNotExist))"
+             | "e:disconnected" -> "(Some (Some ErrPeerDisconnected))" | "e:outslots" -> "(Some (Some ErrOutgoingSlotsUnavailable))"
+             | "e:inslots" -> "(Some (Some ErrIncomingSlotsUnavailable))" | "e:nonconnected" -> "(Some (Some ErrDisconnectNonConnected))"
+             | _ -> "(Some (Some ErrPeerDoesNotExist))") in
+           terms := Printf.sprintf "vm_step %s %s (%s) %s %s" (coq_pset !cur) (coq_n k) (coq_op o) e' (coq_pset s1) :: !terms;
+           cur := s1
+         | _ -> ());
+        go ops' obsl'
+      | _ -> () in
+    go optoks obtoks;
+    if !terms = [] then None else Some (String.concat "\n  && " (List.rev !terms))
+  | _ -> None
+
+let () = run_driver ~coq check
